@@ -49,9 +49,11 @@ var (
 	cvErrs  = []error{errors.New("boom"), errors.New(""), &os.PathError{Op: "open", Path: "/x", Err: errors.New("nope")},
 		// non-nil errors whose dynamic type is a slice, map or func type holding nil: they are errors, not nil
 		cvMultiErr(nil), cvMultiErr{errors.New("a"), nil}, cvMapErr(nil), cvMapErr{"k": "v"}, cvFuncErr(nil)}
-	cvNilErrs   = []error{(*os.PathError)(nil), (*os.SyscallError)(nil), (*json.SyntaxError)(nil)}
-	cvLocs      = []*time.Location{time.UTC, time.FixedZone("X", 3600)}
-	cvTimes     = []time.Time{{}, time.Unix(0, 0).UTC(), time.Unix(1700000000, 123456789).In(cvLocs[1]), time.Unix(1<<40, 999999999).UTC()}
+	cvNilErrs = []error{(*os.PathError)(nil), (*os.SyscallError)(nil), (*json.SyntaxError)(nil)}
+	cvLocs    = []*time.Location{time.UTC, time.FixedZone("X", 3600)}
+	cvTimes   = []time.Time{{}, time.Unix(0, 0).UTC(), time.Unix(1700000000, 123456789).In(cvLocs[1]), time.Unix(1<<40, 999999999).UTC(),
+		// the zero instant in a zone that is not UTC: IsZero() is true, the location is part of the value
+		time.Time{}.In(cvLocs[1]), time.Time{}.In(time.FixedZone("W", -7200))}
 	cvScan      []ugo.Object // one scanArg per scannable type
 	cvScanNil   ugo.Object   // (*scanArg)(nil)
 	cvScanNoArg ugo.Object   // &scanArg{} (argValue == nil)
